@@ -42,6 +42,20 @@ CoherentSansTflag(f, m) ==
   /\ (HasDim(f, "LAY") => m.nlays = DimLen(f, "LAY"))
   /\ Len(m.vglvls) = m.nlays + 1
 
+\* a file whose time flags lag behind a variable that was just added through
+\* the wrapper's createVariable (NVARS / VAR-LIST / VAR follow at once, TFLAG
+\* keeps its old second axis until the next operation): everything else agrees
+CoherentLag(f, m) ==
+  /\ m.nvars = Len(m.varlist) /\ m.rawlen = 16 * m.nvars
+  /\ HasVar(f, "TFLAG") /\ VarRec(f, "TFLAG").dims = <<"TSTEP", "VAR", "DATE-TIME">>
+  /\ VarRec(f, "TFLAG").shape[2] # m.nvars
+  /\ \A i \in 1..Len(m.varlist) : HasVar(f, m.varlist[i]) /\ VarRec(f, m.varlist[i]).dims \in StdDims
+  /\ (HasDim(f, "ROW") => m.nrows = DimLen(f, "ROW"))
+  /\ (HasDim(f, "COL") => m.ncols = DimLen(f, "COL"))
+  /\ (HasDim(f, "LAY") => m.nlays = DimLen(f, "LAY"))
+  /\ Len(m.vglvls) = m.nlays + 1
+  /\ (Len(m.tflag_dates) >= 1 => m.sdate = m.tflag_dates[1] /\ m.stime = m.tflag_times[1])
+
 \* IOAPI files always mark the time-step dimension unlimited (C01)
 TstepUnlimited(f) == HasDim(f, "TSTEP") => DimRec(f, "TSTEP").u
 
